@@ -1,10 +1,13 @@
 (* C06 — Loop iteration limit bounds nested iteration.  Property theorems only.
    All statements are about Limits.run_prog v md for EVERY variant v with is_repaired v (the repairs present:
-   .work/fixes/C06-loop-carry.patch, C08-zero-limits.patch, C07-namespace-rollback.patch; v_item - whether render-for
-   copies one context or one per item - is left free) and, where md is quantified, for every mode
-   (Strict | Warn | Lax).  Limits.repaired, which the correspondence run compares with the engine, is one such v.
-   The frame discipline of the model (a loop is on the loop stack exactly while its block runs) is that of the code
-   after .work/fixes/C06-loop-stack-leak.patch. *)
+   .work/fixes/C06-loop-carry.patch, C08-zero-limits.patch, C07-namespace-rollback.patch, the block.super repairs dec4c86 and
+   C07-namespace-across-block-super.patch; v_item - whether render-for copies one context or one per item - is left free)
+   and, where md is quantified, for every mode (Strict | Warn | Lax).  Limits.repaired, which the correspondence run
+   compares with the engine, is one such v.  The frame discipline of the model (a loop is on the loop stack exactly
+   while its block runs) is that of the code after .work/fixes/C06-loop-stack-leak.patch.
+   run_prog v md lim chain main glob sizes: chain = [] - main is the template; chain = d0 :: loaded - the template extends
+   a chain of templates, main is the body of the chain's base template with all block definitions inlined (Block /
+   Super nodes), the numbers are the block-nesting depths of the chain's sources; glob = render arguments. *)
 From LiquidVerif Require Import Prelude PyPrims Limits Limits_Proofs Limits_Sim_Proofs.
 Local Open Scope Z_scope.
 
@@ -12,10 +15,11 @@ Local Open Scope Z_scope.
    MODE: if the render completes, every text leaf it executed - including those of top-level nodes whose error was
    later dropped in WARN/LAX mode - was executed while the TRUE product of the lengths of all enclosing repeating
    constructs (for, tablerow, include-with-array, render-for; through include, render, macro call, capture,
-   ifchanged) was <= L.  s_leaf is the ghost log of that product at every leaf execution. *)
-Theorem C06_bound : forall v md lim L, is_repaired v -> l_loop lim = Some L -> forall main sizes s,
+   ifchanged, overriding blocks and block.super, whichever template of a chain each loop is written in) was <= L.
+   s_leaf is the ghost log of that product at every leaf execution. *)
+Theorem C06_bound : forall v md lim L, is_repaired v -> l_loop lim = Some L -> forall chain main glob sizes s,
   (1 <= L)%N ->
-  run_prog v md lim main sizes = LOk s ->
+  run_prog v md lim chain main glob sizes = LOk s ->
   Forall (fun p => (p <= L)%N) (s_leaf s).
 Proof. exact run_leaf_bound_ok. Qed.
 Print Assumptions C06_bound.
@@ -23,9 +27,9 @@ Print Assumptions C06_bound.
 (* the same for whatever the render returns: also the state carried by an error that escapes (STRICT: any error;
    WARN/LAX: only the outermost context-depth check) has no leaf executed above the limit.  This is what C06 means
    when errors are suppressed: suppression never lets a block run while the product exceeds L. *)
-Theorem C06_bound_all_outcomes : forall v md lim L, is_repaired v -> l_loop lim = Some L -> forall main sizes,
+Theorem C06_bound_all_outcomes : forall v md lim L, is_repaired v -> l_loop lim = Some L -> forall chain main glob sizes,
   (1 <= L)%N ->
-  match run_prog v md lim main sizes with
+  match run_prog v md lim chain main glob sizes with
   | LOk s | LErr _ s => Forall (fun p => (p <= L)%N) (s_leaf s)
   | LFuel => True
   end.
@@ -33,39 +37,45 @@ Proof. exact run_leaf_bound. Qed.
 Print Assumptions C06_bound_all_outcomes.
 
 (* the invariant behind it: in every context the product the engine computes (loop stack x carry) equals the
-   true product; it is re-established by every construct for the context its block runs in *)
+   true product; it is re-established by every construct for the context its block runs in - loops, copies for
+   partials and macros, the block-scoped copy an overriding block runs in, and the base context block.super returns
+   to (under loop_iterations(enclosing): the division enclosing = iterations of the copy // iterations of the base
+   is exact) *)
 Theorem C06_bookkeeping_is_true_product : forall v lim L f n,
-  is_repaired v -> l_loop lim = Some L -> linv L f -> loop_exceeded v lim f n = false ->
-  linv L (f_for f n) /\ linv L (f_scale v f n) /\ (forall z, linv L (f_copy f z)).
+  is_repaired v -> l_loop lim = Some L -> linv L f -> (n =? 0)%N = false -> loop_exceeded v lim f n = false ->
+  linv L (f_for f n) /\ linv L (f_scale v f n) /\ linv L (f_copy f) /\ linv L (f_call f) /\ linv L (f_blk f) /\
+  (forall b, f_sup f = SupBase b -> linv L (f_base v b f)).
 Proof.
-  intros v lim L f n Hv HL HI He. split; [exact (linv_for v lim L Hv HL f n HI He)|].
-  split; [exact (linv_scale v lim L Hv HL f n HI He)|]. intro z. exact (linv_copy L f z HI).
+  intros v lim L f n Hv HL HI Hn He. split; [exact (linv_for v lim L Hv HL f n HI Hn He)|].
+  split; [exact (linv_scale v lim L Hv HL f n HI Hn He)|]. split; [exact (linv_copy L f HI)|].
+  split; [exact (linv_call L f HI)|]. split; [exact (linv_blk L f HI)|]. intros b Es. exact (linv_base v L Hv f b HI Es).
 Qed.
 Print Assumptions C06_bookkeeping_is_true_product.
 
 (* STRICT: a completed render contains no reached nest whose lengths multiply to more than L
-   (maxprod_list: declarative maximum over the nest; a zero length cuts its subtree) *)
-Theorem C06_completed_within_limit : forall v lim L, is_repaired v -> l_loop lim = Some L -> forall main sizes s,
+   (maxprod_list: declarative maximum over the nest; a zero length cuts its subtree; a block.super counts where a
+   block object with a parent is in scope) *)
+Theorem C06_completed_within_limit : forall v lim L, is_repaired v -> l_loop lim = Some L -> forall chain main glob sizes s,
   (1 <= L)%N ->
-  run_prog v Strict lim main sizes = LOk s -> (maxprod_list 1 main <= L)%N.
+  run_prog v Strict lim chain main glob sizes = LOk s -> (maxprod_list 1 main <= L)%N.
 Proof. exact run_maxprod. Qed.
 Print Assumptions C06_completed_within_limit.
 
 (* STRICT: a nest whose lengths multiply to more than L raises LoopIterationLimitError: whenever the render completes
    with the loop limit removed (the other limits unchanged) and some reached nest multiplies to more than L *)
-Theorem C06_raises : forall v, is_repaired v -> forall lim L main sizes s,
+Theorem C06_raises : forall v, is_repaired v -> forall lim L chain main glob sizes s,
   l_loop lim = Some L -> (1 <= L)%N ->
-  run_prog v Strict (with_loop lim None) main sizes = LOk s ->
+  run_prog v Strict (with_loop lim None) chain main glob sizes = LOk s ->
   (L < maxprod_list 1 main)%N ->
-  exists se, run_prog v Strict lim main sizes = LErr XLoop se.
+  exists se, run_prog v Strict lim chain main glob sizes = LErr XLoop se.
 Proof. exact run_loop_raises. Qed.
 Print Assumptions C06_raises.
 
 (* ... and ONLY then, in every mode: if no reached nest multiplies to more than L, the loop limit changes nothing -
    the render under limit L is, outcome for outcome, the render with the loop limit removed. *)
-Theorem C06_no_false_alarm : forall v md lim L, is_repaired v -> l_loop lim = Some L -> forall main sizes,
+Theorem C06_no_false_alarm : forall v md lim L, is_repaired v -> l_loop lim = Some L -> forall chain main glob sizes,
   (1 <= L)%N -> (maxprod_list 1 main <= L)%N ->
-  run_prog v md lim main sizes = run_prog v md (with_loop lim None) main sizes.
+  run_prog v md lim chain main glob sizes = run_prog v md (with_loop lim None) chain main glob sizes.
 Proof. exact run_no_false_alarm. Qed.
 Print Assumptions C06_no_false_alarm.
 
@@ -75,27 +85,49 @@ Print Assumptions C06_no_false_alarm.
 Definition lim50 : limits := {| l_loop := Some 50%N; l_out := None; l_ns := None; l_depth := 30; l_nest := 30 |}.
 Theorem C06_unrepaired_refuted :
   forall outer, In outer [Tablerow 10; IncludeArr 10; RenderFor 10] ->
-  exists s, run_prog unrepaired Strict lim50 [outer [For 10 [Text [120%N]]]] [] = LOk s /\ In 100%N (s_leaf s)
-            /\ exists se, run_prog repaired Strict lim50 [outer [For 10 [Text [120%N]]]] [] = LErr XLoop se.
+  exists s, run_prog unrepaired Strict lim50 [] [outer [For 10 [Text [120%N]]]] [] [] = LOk s /\ In 100%N (s_leaf s)
+            /\ exists se, run_prog repaired Strict lim50 [] [outer [For 10 [Text [120%N]]]] [] [] = LErr XLoop se.
 Proof.
   intros outer [<-|[<-|[<-|[]]]]; eexists; (split; [vm_compute; reflexivity|]); (split; [vm_compute; auto|eexists; vm_compute; reflexivity]).
 Qed.
 Print Assumptions C06_unrepaired_refuted.
 
+(* the code before dec4c86 (block.super renders the parent block in the base context, whose loop stack lacks the loops
+   the overriding block has entered): child {% block b %}{% for i in (1..10) %}{{ block.super }}{% endfor %}{% endblock %}
+   over base {% block b %}{% for j in (1..10) %}x{% endfor %}{% endblock %} completes under limit 50 with its leaf at
+   product 100 *)
+Definition super_nest : list node := [Block [For 10 [Super [For 10 [Text [120%N]]]]]].
+Theorem C06_super_unrepaired_refuted :
+  (exists s, run_prog no_super_loop Strict lim50 [1; 1] super_nest [] [] = LOk s /\ In 100%N (s_leaf s)) /\
+  (exists se, run_prog repaired Strict lim50 [1; 1] super_nest [] [] = LErr XLoop se) /\
+  maxprod_list 1 super_nest = 100%N.
+Proof.
+  split; [eexists; split; [vm_compute; reflexivity|vm_compute; auto]|]. split; [eexists; vm_compute; reflexivity|vm_compute; reflexivity].
+Qed.
+Print Assumptions C06_super_unrepaired_refuted.
+
 (* non-vacuity: hypotheses of C06_bound / C06_raises are satisfiable, and products multiply through partials and macros *)
 Example C06_nonvacuous_completes :
-  exists s, run_prog repaired Strict lim50 [IncludeArr 5 [Tablerow 2 [Call [RenderFor 5 [Text [120%N]]]]]] [] = LOk s
+  exists s, run_prog repaired Strict lim50 [] [IncludeArr 5 [Tablerow 2 [Call [RenderFor 5 [Text [120%N]]]]]] [] [] = LOk s
             /\ length (s_leaf s) = 50%nat /\ maxprod_list 1 [IncludeArr 5 [Tablerow 2 [Call [RenderFor 5 [Text [120%N]]]]]] = 50%N.
 Proof. eexists. split; [vm_compute; reflexivity|]. split; vm_compute; reflexivity. Qed.
 
 Example C06_nonvacuous_raises :
-  (exists s, run_prog repaired Strict (with_loop lim50 None) [For 5 [Render [Tablerow 2 [Call [RenderFor 6 [Text [120%N]]]]]]] [] = LOk s) /\
+  (exists s, run_prog repaired Strict (with_loop lim50 None) [] [For 5 [Render [Tablerow 2 [Call [RenderFor 6 [Text [120%N]]]]]]] [] [] = LOk s) /\
   maxprod_list 1 [For 5 [Render [Tablerow 2 [Call [RenderFor 6 [Text [120%N]]]]]]] = 60%N /\
-  exists se, run_prog repaired Strict lim50 [For 5 [Render [Tablerow 2 [Call [RenderFor 6 [Text [120%N]]]]]]] [] = LErr XLoop se.
+  exists se, run_prog repaired Strict lim50 [] [For 5 [Render [Tablerow 2 [Call [RenderFor 6 [Text [120%N]]]]]]] [] [] = LErr XLoop se.
 Proof. split; [eexists; vm_compute; reflexivity|]. split; [vm_compute; reflexivity|eexists; vm_compute; reflexivity]. Qed.
+
+(* ... and through a chain of three templates: base {% for (1..5) %}{% block b %}..{% endblock %}{% endfor %}, overridden twice,
+   each level looping around block.super: 5 x 2 x 5 x 1 = 50 leaf executions at product 50 *)
+Example C06_nonvacuous_chain :
+  exists s, run_prog repaired Strict lim50 [1; 2; 2] [For 5 [Block [Tablerow 2 [Super [For 5 [Super [Text [120%N]]]]]]]] [] [] = LOk s
+            /\ length (s_leaf s) = 50%nat /\ Forall (fun p => p = 50%N) (s_leaf s)
+            /\ exists se, run_prog repaired Strict lim50 [1; 2; 2] [For 5 [Block [Tablerow 2 [Super [For 6 [Super [Text [120%N]]]]]]]] [] [] = LErr XLoop se.
+Proof. eexists. split; [vm_compute; reflexivity|]. split; [vm_compute; reflexivity|]. split; [vm_compute; repeat constructor|eexists; vm_compute; reflexivity]. Qed.
 
 (* LAX: the over-limit loop is abandoned with its top-level node (no leaf of it runs), the next node still renders *)
 Example C06_lax_example :
-  exists s, run_prog repaired Lax lim50 [For 10 [Tablerow 10 [Text [120%N]]]; Text [121%N]] [] = LOk s
+  exists s, run_prog repaired Lax lim50 [] [For 10 [Tablerow 10 [Text [120%N]]]; Text [121%N]] [] [] = LOk s
             /\ buf_text (s_buf s) = [121%N] /\ s_leaf s = [1%N].
 Proof. eexists. split; [vm_compute; reflexivity|]. split; vm_compute; reflexivity. Qed.
